@@ -291,6 +291,11 @@ def check_init(ctx, cfg, tus, tag, G, GT):
                 report(ctx, p, R4, inst, 'this path returns without installing a new handle in `%s`: a repeated '
                        'initialisation keeps the previous setting' % G[1].split('::')[-1], tu.fn_loc(f),
                        '%s|%s|initTaskingSystem|%s:handle-not-replaced' % (R4, file, cfg))
+            elif hv.as_int() == 0:
+                bad = True
+                report(ctx, p, R4, inst, 'this path leaves `%s` empty (null): after initTaskingSystem the system reports 0 threads '
+                       'and the handle that carries the setting is gone' % G[1].split('::')[-1], tu.fn_loc(f),
+                       '%s|%s|initTaskingSystem|%s:handle-not-replaced' % (R4, file, cfg))
             elif not (isinstance(ha, tuple) and ha[0] == 'new'):
                 bad = True
                 ctx.undecided(R4, inst, '`%s` is assigned %s, not a freshly created handle' % (G[1].split('::')[-1], show_val(hv)),
